@@ -303,10 +303,18 @@ extern "C" fn k_close(fd: c_int) -> c_int {
 
 /// kinds 0..=5 as in `op`; 6: the hooked close (syscall::close -> NioCloseSyscall -> raw close) on a live descriptor;
 /// 7: a readiness event for the descriptor is delivered through `select`.
-fn step(kind: u8) {
+/// `r0`/`w0`: which interests descriptor 0 (the one the operation addresses) has outstanding - CONCRETE per harness (4 x 8
+/// instances). With them symbolic, the model OS's answer to reregister/register is symbolic too, CBMC has to follow the
+/// `or_else(|_| register(..))` error path everywhere, and dropping the io::Error there (a `Box<dyn Error>` as far as the type
+/// goes) drags the drop glue of every type of the crate into the query: no step harness finished in 900 s. Everything else
+/// stays symbolic: whether the waiting tokens were already consumed, all tokens, descriptor 1's whole state.
+fn step(kind: u8, r0: bool, w0: bool) {
     reset_records();
     let p = Poller::new().unwrap();
-    let s0 = any_fd_state();
+    let mut s0 = any_fd_state();
+    kani::assume(s0.r == r0 && s0.w == w0);
+    s0.r = r0;
+    s0.w = w0;
     let s1 = any_fd_state();
     install(&p, 0, &s0);
     install(&p, 1, &s1);
@@ -338,31 +346,53 @@ fn step(kind: u8) {
         _ => op(&p, &mut g, kind, i, token),
     }
     inv(&p, &g);
-    kani::cover!(i == 0 && s0.r && s0.w, "the operation hits a descriptor with both interests outstanding");
-    kani::cover!(i == 0 && s0.r && !s0.rt, "the operation hits a descriptor whose read event was already delivered");
-    kani::cover!(i == 0 && !s0.r && !s0.w, "the operation hits a descriptor without interest");
+    kani::cover!(s1.r && s1.w && !s1.rt, "bystander descriptor with both interests, read event already delivered");
+    kani::cover!(!s1.r && !s1.w, "bystander descriptor without interest");
 }
 
 macro_rules! c21_step {
-    ($name:ident, $kind:expr) => {
+    ($name:ident, $kind:expr, $r:expr, $w:expr) => {
+        // unwind 3 (model containers hold 2 entries in this group, `--cfg ocv_small`): the bound is also the depth to which
+        // CBMC unrolls the recursion it sees in io::Error's drop glue (Box<dyn Error> whose source may be an io::Error ...);
+        // at unwind 6 no step harness finished symbolic execution
+        #[cfg(ocv_small)]
         #[kani::proof]
-        #[kani::unwind(6)]
+        #[kani::unwind(3)]
+        #[kani::stub(crate::net::EventLoops::del_event, s_del_event)]
         fn $name() {
-            step($kind);
+            step($kind, $r, $w);
         }
     };
 }
-c21_step!(c21_step_wait_read, 0);
-c21_step!(c21_step_wait_write, 1);
-c21_step!(c21_step_del_both, 2);
-c21_step!(c21_step_del_read, 3);
-c21_step!(c21_step_del_write, 4);
-c21_step!(c21_step_close_and_reuse, 5);
-c21_step!(c21_step_event_delivered, 7);
-
-#[kani::proof]
-#[kani::unwind(6)]
-#[kani::stub(crate::net::EventLoops::del_event, s_del_event)]
-fn c21_step_hooked_close() {
-    step(6);
-}
+c21_step!(c21_step_wait_read_from_none, 0, false, false);
+c21_step!(c21_step_wait_read_from_read, 0, true, false);
+c21_step!(c21_step_wait_read_from_write, 0, false, true);
+c21_step!(c21_step_wait_read_from_both, 0, true, true);
+c21_step!(c21_step_wait_write_from_none, 1, false, false);
+c21_step!(c21_step_wait_write_from_read, 1, true, false);
+c21_step!(c21_step_wait_write_from_write, 1, false, true);
+c21_step!(c21_step_wait_write_from_both, 1, true, true);
+c21_step!(c21_step_del_both_from_none, 2, false, false);
+c21_step!(c21_step_del_both_from_read, 2, true, false);
+c21_step!(c21_step_del_both_from_write, 2, false, true);
+c21_step!(c21_step_del_both_from_both, 2, true, true);
+c21_step!(c21_step_del_read_from_none, 3, false, false);
+c21_step!(c21_step_del_read_from_read, 3, true, false);
+c21_step!(c21_step_del_read_from_write, 3, false, true);
+c21_step!(c21_step_del_read_from_both, 3, true, true);
+c21_step!(c21_step_del_write_from_none, 4, false, false);
+c21_step!(c21_step_del_write_from_read, 4, true, false);
+c21_step!(c21_step_del_write_from_write, 4, false, true);
+c21_step!(c21_step_del_write_from_both, 4, true, true);
+c21_step!(c21_step_close_and_reuse_from_none, 5, false, false);
+c21_step!(c21_step_close_and_reuse_from_read, 5, true, false);
+c21_step!(c21_step_close_and_reuse_from_write, 5, false, true);
+c21_step!(c21_step_close_and_reuse_from_both, 5, true, true);
+c21_step!(c21_step_hooked_close_from_none, 6, false, false);
+c21_step!(c21_step_hooked_close_from_read, 6, true, false);
+c21_step!(c21_step_hooked_close_from_write, 6, false, true);
+c21_step!(c21_step_hooked_close_from_both, 6, true, true);
+c21_step!(c21_step_event_delivered_from_none, 7, false, false);
+c21_step!(c21_step_event_delivered_from_read, 7, true, false);
+c21_step!(c21_step_event_delivered_from_write, 7, false, true);
+c21_step!(c21_step_event_delivered_from_both, 7, true, true);
